@@ -62,6 +62,20 @@ type run struct {
 	prevSt   *scheduler.VerifState // state before the current segment (for per-decision checks)
 	noModel  bool                  // monitor-only mode: used to search for a failing input after a mismatch
 	onlyProp string                // when set, findings and structural invariants of other properties do not end the run
+	pending  *failure              // a model/implementation disagreement that does not stop the history: a violation found later in the same history takes precedence (see finish)
+}
+
+// finish turns a pending disagreement into the history's failure when nothing worse was found.
+func (r *run) finish() {
+	if r.fail == nil && r.pending != nil {
+		r.fail = r.pending
+	}
+}
+
+func (r *run) pendf(kind, prop, name, format string, args ...any) {
+	if r.pending == nil {
+		r.pending = &failure{kind: kind, prop: prop, name: name, what: fmt.Sprintf(format, args...)}
+	}
 }
 
 type failure struct {
